@@ -378,6 +378,7 @@ func (eng *Engine) constGlobalTerm(g *Gen, gl *ssa.Global) string {
 	if call, ok := eng.globalInit[gl].(*ssa.Call); ok {
 		if f := call.Common().StaticCallee(); f != nil && (f.String() == "errors.New" || f.String() == "fmt.Errorf") {
 			g.sc.emit("(assert (not (= %s iface_nil)))", name)
+			g.sc.emit("(assert (not (fresh_err %s)))", name)
 			for _, o := range g.sc.errConsts {
 				g.sc.emit("(assert (not (= %s %s)))", name, o)
 			}
